@@ -217,6 +217,9 @@ fn run_direct(case: &Case) -> Result<Outcome, V> {
             (Decision::Accept { asset, amount, fee_quote }, Ok(open)) => {
                 out.accepted += 1;
                 out.cells.push(format!("accept:{}", if r.buy { "buy" } else { "sell" }));
+                if d(&r.q).is_zero() {
+                    out.cells.push("accept:order_for_zero_quantity".into());
+                }
                 if led.bal[asset] == *amount {
                     out.cells.push(format!("accept:{}_exactly_at_boundary", if r.buy { "buy" } else { "sell" }));
                 }
@@ -583,7 +586,12 @@ fn gen_case(rng: &mut Rng) -> Case {
             }
             _ => {}
         }
-        let r = Req { instr: instr.clone(), buy, p: p.to_string(), q: q.normalize().to_string(), market };
+        // an order for nothing spends nothing: affordable on any account, even an empty one
+        let zero_q = rng.chance(1, 25);
+        if zero_q {
+            q = Decimal::new(0, *rng.pick(&[0u32, 4]));
+        }
+        let r = Req { instr: instr.clone(), buy, p: p.to_string(), q: if zero_q { q.to_string() } else { q.normalize().to_string() }, market };
         // track the model balance so that later boundary requests are meaningful
         if market && known {
             let need = if buy { p * q * (Decimal::ONE + f) } else { q * (Decimal::ONE + f) };
@@ -668,6 +676,7 @@ fn main() {
         for c in [
             "accept:buy",
             "accept:sell",
+            "accept:order_for_zero_quantity",
             "accept:buy_exactly_at_boundary",
             "accept:sell_exactly_at_boundary",
             "reject:unsupported_kind",
